@@ -228,6 +228,19 @@ def damaged_path(cfg, two_frames):
     return path
 
 
+def junk_between_flags_path(cfg, k):
+    """7E + j free octets (j = 1..k: lone escapes, short junk) + 7E + spec frame + 7E (+ spec frame + 7E)"""
+    def path(eng, ctx):
+        j = 1 + eng.pick(k)
+        junk = [sym_octet(f"j{i}") for i in range(j)]
+        f1, f2 = FRAMES[eng.pick(len(FRAMES))], FRAMES[3]
+        w1, w2 = (ref.stuff(f1), ref.stuff(f2)) if cfg[0] else (f1, f2)
+        stream = SBytes([0x7E] + junk + [0x7E] + w1 + [0x7E] + w2 + [0x7E])
+        n = len(stream)
+        reader_assertions(eng, ctx, cfg, stream, [(), (j + 1,), (j + 2,), (j + 3,), tuple(range(1, n))], f"junk({j}) between flags before a clean frame")
+    return path
+
+
 def scenarios(tier):
     q = tier == "quick"
     A = inject.assumptions(("hdlc",))
@@ -246,6 +259,9 @@ def scenarios(tier):
             out.append(Scenario(f"reader, 7E+{h}hdr+{nf}free+7E {HC.cfg_name(cfg)}", structured_path(cfg, h, nf),
                                 bounds={"header_like_octets": h, "free_octets": nf, "splittings": "every single cut + byte-at-a-time", "configuration": HC.cfg_name(cfg)},
                                 domains=("hdlc",), frontier=6, assumptions=A, must_reach=("assert", "iff:true", "iff:false")))
+        out.append(Scenario(f"reader, 7E + 1..{2 if q else 3} free octets + 7E + clean frames {HC.cfg_name(cfg)}", junk_between_flags_path(cfg, 2 if q else 3),
+                            bounds={"junk_octets": f"1..{2 if q else 3} free (lone escape, short frames)", "followed_by": "2 concrete spec frames", "splittings": "one call, cuts around the junk, byte-at-a-time", "configuration": HC.cfg_name(cfg)},
+                            domains=("hdlc",), frontier=4, assumptions=A, must_reach=("assert", "iff:true")))
         for two in ((False,) if q else (False, True)):
             out.append(Scenario(f"reader, damaged spec frame{' + following frame' if two else ''} {HC.cfg_name(cfg)}", damaged_path(cfg, two),
                                 bounds={"frames": "4 spec-built frames (escape/flag payload, header-only, 4+2-octet addresses, minimal)", "damage": "one free replacement at any position | truncation at any position | one free octet inserted at any position",
